@@ -241,7 +241,7 @@ func edgeTo(from, to *ssa.BasicBlock) an.CtrlEdge {
 
 func fieldNameOf(fa *ssa.FieldAddr) string {
 	t := fa.X.Type().Underlying().(*types.Pointer).Elem().Underlying().(*types.Struct)
-	return t.Field(fa.Field).Name()
+	return an.CanonFieldName(t.Field(fa.Field))
 }
 
 // mustPass reports whether every path from `from` to a function exit passes
